@@ -162,3 +162,43 @@ pub const Q_LE: [u8; 32] = [
 ];
 pub const R_LE: [u8; 32] = [255, 217, 63, 195, 154, 238, 90, 185, 254, 138, 60, 196, 175, 163, 147, 82, 0, 236, 13, 151, 71, 19, 45, 152, 85, 41, 139, 166, 87, 217, 170, 4];
 pub const P_LE: [u8; 48] = [1, 0, 0, 0, 0, 192, 8, 133, 0, 0, 0, 48, 68, 93, 11, 23, 0, 72, 9, 186, 47, 98, 243, 30, 143, 19, 245, 0, 243, 217, 34, 26, 59, 73, 161, 108, 192, 5, 59, 198, 234, 16, 197, 23, 70, 58, 174, 1];
+
+/// a reader that hands out at most `chunk` bytes per `read` call (a stream deserialiser must loop: `read_exact`)
+pub struct Chunked<'a> {
+    pub data: &'a [u8],
+    pub pos: usize,
+    pub chunk: usize,
+}
+impl<'a> Chunked<'a> {
+    pub fn new(data: &'a [u8], chunk: usize) -> Self {
+        Chunked { data, pos: 0, chunk: chunk.max(1) }
+    }
+}
+impl<'a> std::io::Read for Chunked<'a> {
+    fn read(&mut self, buf: &mut [u8]) -> std::io::Result<usize> {
+        let n = buf.len().min(self.chunk).min(self.data.len() - self.pos);
+        buf[..n].copy_from_slice(&self.data[self.pos..self.pos + n]);
+        self.pos += n;
+        Ok(n)
+    }
+}
+/// a writer that accepts at most `chunk` bytes per `write` call (a serialiser must loop: `write_all`)
+pub struct ShortWriter {
+    pub buf: Vec<u8>,
+    pub chunk: usize,
+}
+impl ShortWriter {
+    pub fn new(chunk: usize) -> Self {
+        ShortWriter { buf: Vec::new(), chunk: chunk.max(1) }
+    }
+}
+impl std::io::Write for ShortWriter {
+    fn write(&mut self, b: &[u8]) -> std::io::Result<usize> {
+        let n = b.len().min(self.chunk);
+        self.buf.extend_from_slice(&b[..n]);
+        Ok(n)
+    }
+    fn flush(&mut self) -> std::io::Result<()> {
+        Ok(())
+    }
+}
